@@ -42,10 +42,6 @@ func _roll32(src *rand.PCGSource, dicePoints int) int {
 }
 
 func _roll64(src *rand.PCGSource, dicePoints int64, mod int) int64 {
-	if dicePoints > math.MaxInt64-1 {
-		return 0
-	}
-
 	v := src.Uint64()
 	n := uint64(dicePoints)
 	// 下面这段取整代码来自 golang 的 exp/rand
